@@ -14,12 +14,12 @@ def kvGet (toks : List String) (k : String) : String :=
     | [a, v] => if a = k then some v else none
     | _ => none).head?).getD ""
 
-/-- uint64(float64) of the JSON numbers the generator uses -/
-def truncDiff (txt : String) : Nat :=
+/-- a decimal JSON number in units of 2^-16 (exact for the dyadic values the generator uses) -/
+def diffUnits (txt : String) : Nat :=
   match txt.splitOn "." with
-  | [a] => a.toNat?.getD 0
-  | a :: _ => a.toNat?.getD 0
-  | [] => 0
+  | [a] => a.toNat?.getD 0 * 65536
+  | [a, f] => ((a.toNat?.getD 0) * 10 ^ f.length + f.toNat?.getD 0) * 65536 / 10 ^ f.length
+  | _ => 0
 
 def streamName : Out → String
   | .cb _ _ => "cb"
@@ -66,10 +66,10 @@ def startSession (s : Sess) : Sess × List Out :=
     let user := bytesStr (Cred.getDestUserName s.notPropagate (strBytes s.minerUser) u)
     let job := p.name ++ "-j1"
     let d : Dest := {
-      pool := p.name, conn := 1, user := user, diff := p.diff, xn1 := p.en1, xn2size := p.en2size,
+      pool := p.name, conn := 1, user := user, diff := p.diff, diffTxt := p.diffTxt, xn1 := p.en1, xn2size := p.en2size,
       mask := if s.vr then p.mask else "",
       v := (Validator.new 30 s.cleanTimeout).addNewJob job true s.now,
-      jobs := [{ jobId := job, tmpl := "t0", diff := p.diff, xn1 := p.en1, xn2size := p.en2size }] }
+      jobs := [{ jobId := job, tmpl := "t0", diff := p.diff, diffTxt := p.diffTxt, xn1 := p.en1, xn2size := p.en2size }] }
     let outs : List Out :=
       [.factory p.name (some 1), .session "connected"] ++
       (if s.vr then [Out.toMiner ("result id=1 value:{\"version-rolling\":true,\"version-rolling.mask\":\"" ++ p.mask ++ "\"}"),
@@ -94,11 +94,11 @@ def step1 (st : DSt) : List String → DSt × List String
     let v := match kvGet rest "reject" with | "err" => PoolVerdict.rejectErr | "false" => .rejectFalse | _ => .accept
     let p : PoolCfg := { name := name, mask := kvGet rest "mask", en1 := kvGet rest "en1",
                          en2size := parseNat (kvGet rest "en2size"), diffTxt := kvGet rest "diff",
-                         diff := truncDiff (kvGet rest "diff"), verdict := v }
+                         diff := diffUnits (kvGet rest "diff"), verdict := v }
     ({ st with s := { st.s with pools := st.s.pools ++ [p] } }, [])
   | ["start"] => emit st (startSession st.s)
   | ["notify", pool, job, tmpl, clean] => emit st (onNotify st.s pool job tmpl (clean = "1"))
-  | ["diff", pool, txt] => emit st (onDiff st.s pool txt (truncDiff txt))
+  | ["diff", pool, txt] => emit st (onDiff st.s pool txt (diffUnits txt))
   | ["xn", pool, xn1, size] => emit st (onExtranonce st.s pool xn1 (parseNat size))
   | ["vmask", pool, mask] => emit st (onMask st.s pool mask)
   | ["submit", id, _user, job, en2, nt, no, vb] =>
